@@ -84,19 +84,19 @@ Definition mod32 (o : N) : N := o mod two32.
 Lemma rec_step_entry a off v :
   rec_step a {| fe_typ := FrameEntry; fe_val := v; fe_off := off |} =
   {| ra_offsets := ra_offsets a ++ [off mod two32]; ra_pending := ra_pending a;
-     ra_prev := ra_prev a; ra_final := ra_final a |}.
+     ra_commits := ra_commits a |}.
 Proof. reflexivity. Qed.
 
 Lemma fold_entry_events ps : forall pos a,
   fold_left rec_step (fs_events pos (map sh_entry ps)) a =
   {| ra_offsets := ra_offsets a ++ map mod32 (entry_offsets pos ps);
-     ra_pending := ra_pending a; ra_prev := ra_prev a; ra_final := ra_final a |}.
+     ra_pending := ra_pending a; ra_commits := ra_commits a |}.
 Proof.
   induction ps as [|p r IH]; intros pos a.
   - cbn. rewrite app_nil_r. destruct a; reflexivity.
   - cbn [map fs_events fold_left]. rewrite IH.
     change (fs_typ (sh_entry p)) with FrameEntry. rewrite rec_step_entry.
-    cbn [ra_offsets ra_pending ra_prev ra_final entry_offsets map].
+    cbn [ra_offsets ra_pending ra_commits entry_offsets map].
     rewrite <- app_assoc. cbn [app]. unfold mod32 at 2.
     replace (pos + 8 + len (fs_body (sh_entry p))) with (pos + enc_frame_size (len p)).
     + reflexivity.
@@ -105,43 +105,43 @@ Qed.
 
 Lemma rec_step_index a off v :
   rec_step a {| fe_typ := FrameIndex; fe_val := v; fe_off := off |} =
-  {| ra_offsets := ra_offsets a; ra_pending := off + 8; ra_prev := ra_prev a; ra_final := ra_final a |}.
+  {| ra_offsets := ra_offsets a; ra_pending := off + 8; ra_commits := ra_commits a |}.
 Proof. reflexivity. Qed.
 
 Lemma rec_step_commit a off v :
   rec_step a {| fe_typ := FrameCommit; fe_val := v; fe_off := off |} =
-  {| ra_offsets := ra_offsets a; ra_pending := 0; ra_prev := ra_final a;
-     ra_final := Some {| c_crc := v; c_off := off;
-                         c_crc_start := match ra_final a with Some p => c_off p + 8 | None => 0 end;
-                         c_offsets_len := length (ra_offsets a);
-                         c_index_start := ra_pending a |} |}.
+  {| ra_offsets := ra_offsets a; ra_pending := 0;
+     ra_commits := {| c_crc := v; c_off := off;
+                      c_crc_start := match ra_commits a with p :: _ => c_off p + 8 | [] => 0 end;
+                      c_offsets_len := length (ra_offsets a);
+                      c_index_start := ra_pending a |} :: ra_commits a |}.
 Proof. reflexivity. Qed.
 
 Lemma fold_body_events info s b a :
   fold_left rec_step (fs_events (c_pos info s) (body_shapes info s b)) a =
   {| ra_offsets := ra_offsets a ++ map mod32 (entry_offsets (c_pos info s) (fst b));
      ra_pending := if snd b then c_pos info s + len (entries_bytes (fst b)) + 8 else ra_pending a;
-     ra_prev := ra_prev a; ra_final := ra_final a |}.
+     ra_commits := ra_commits a |}.
 Proof.
   unfold body_shapes. rewrite fs_events_app, fold_left_app, fold_entry_events.
   destruct (snd b); [|reflexivity].
   cbn [fs_events fold_left sh_index fs_typ fs_val]. rewrite rec_step_index.
-  cbn [ra_offsets ra_pending ra_prev ra_final]. rewrite frames_bytes_entries. reflexivity.
+  cbn [ra_offsets ra_pending ra_commits]. rewrite frames_bytes_entries. reflexivity.
 Qed.
 
 Lemma fold_batch_events info s b a crc :
   fold_left rec_step (fs_events (c_pos info s) (body_shapes info s b ++ [sh_commit crc])) a =
   let offs := ra_offsets a ++ map mod32 (entry_offsets (c_pos info s) (fst b)) in
-  {| ra_offsets := offs; ra_pending := 0; ra_prev := ra_final a;
-     ra_final := Some {| c_crc := crc; c_off := c_pos info s + len (batch_body info s b);
-                         c_crc_start := match ra_final a with Some p => c_off p + 8 | None => 0 end;
-                         c_offsets_len := length offs;
-                         c_index_start := if snd b then c_pos info s + len (entries_bytes (fst b)) + 8
-                                          else ra_pending a |} |}.
+  {| ra_offsets := offs; ra_pending := 0;
+     ra_commits := {| c_crc := crc; c_off := c_pos info s + len (batch_body info s b);
+                      c_crc_start := match ra_commits a with p :: _ => c_off p + 8 | [] => 0 end;
+                      c_offsets_len := length offs;
+                      c_index_start := if snd b then c_pos info s + len (entries_bytes (fst b)) + 8
+                                       else ra_pending a |} :: ra_commits a |}.
 Proof.
   rewrite fs_events_app, fold_left_app, fold_body_events.
   cbn [fs_events fold_left sh_commit fs_typ fs_val]. rewrite rec_step_commit.
-  cbn [ra_offsets ra_pending ra_prev ra_final]. rewrite frames_bytes_body. reflexivity.
+  cbn [ra_offsets ra_pending ra_commits]. rewrite frames_bytes_body. reflexivity.
 Qed.
 
 (* events carrying no commit frame leave the commit bookkeeping alone and can
@@ -149,30 +149,60 @@ Qed.
 Lemma fold_no_commit evs : forall a,
   Forall (fun e => fe_typ e = FrameEntry \/ fe_typ e = FrameIndex) evs ->
   let a' := fold_left rec_step evs a in
-  ra_final a' = ra_final a /\ ra_prev a' = ra_prev a /\
+  ra_commits a' = ra_commits a /\
   exists extra, ra_offsets a' = ra_offsets a ++ extra.
 Proof.
   induction evs as [|e r IH]; intros a H.
   - cbn. repeat split; try reflexivity. exists []. rewrite app_nil_r. reflexivity.
   - inversion H as [|? ? He Hr]; subst. cbn [fold_left].
-    destruct (IH (rec_step a e) Hr) as (F & P & extra & O). cbn zeta.
-    rewrite F, P, O. unfold rec_step.
+    destruct (IH (rec_step a e) Hr) as (F & extra & O). cbn zeta.
+    rewrite F, O. unfold rec_step.
     destruct He as [He|He]; rewrite He.
     + replace (FrameEntry =? FrameEntry) with true by reflexivity.
-      cbn [ra_final ra_prev ra_offsets]. repeat split; try reflexivity.
+      cbn [ra_commits ra_offsets]. repeat split; try reflexivity.
       eexists. rewrite <- app_assoc. reflexivity.
     + replace (FrameIndex =? FrameEntry) with false by reflexivity.
       replace (FrameIndex =? FrameIndex) with true by reflexivity.
-      cbn [ra_final ra_prev ra_offsets]. repeat split; try reflexivity.
+      cbn [ra_commits ra_offsets]. repeat split; try reflexivity.
       exists extra. reflexivity.
+Qed.
+
+(* any events: the commit frames found are put in front of those already known,
+   each at the offset of one of the events, and offsets can only be added *)
+Lemma fold_any evs : forall a,
+  let a' := fold_left rec_step evs a in
+  (exists new, ra_commits a' = new ++ ra_commits a /\
+               Forall (fun c => exists e, In e evs /\ c_off c = fe_off e) new) /\
+  exists extra, ra_offsets a' = ra_offsets a ++ extra.
+Proof.
+  induction evs as [|e r IH]; intros a.
+  - cbn. split; [exists []; split; [reflexivity|constructor]|exists []; rewrite app_nil_r; reflexivity].
+  - cbn [fold_left]. destruct (IH (rec_step a e)) as ((new & C & Hnew) & extra & O). cbn zeta.
+    assert (Hnew' : Forall (fun c => exists e0, In e0 (e :: r) /\ c_off c = fe_off e0) new).
+    { eapply Forall_impl; [|exact Hnew]. intros c (e0 & Hin & Hc). exists e0. split; [right; exact Hin|exact Hc]. }
+    rewrite C, O. unfold rec_step.
+    destruct (fe_typ e =? FrameEntry); [|destruct (fe_typ e =? FrameIndex)]; cbn [ra_commits ra_offsets].
+    + split; [exists new; split; [reflexivity|exact Hnew']|]. eexists. rewrite <- app_assoc. reflexivity.
+    + split; [exists new; split; [reflexivity|exact Hnew']|]. exists extra. reflexivity.
+    + split; [|exists extra; reflexivity].
+      eexists (new ++ [_]). split; [rewrite <- app_assoc; reflexivity|].
+      apply Forall_app; split; [exact Hnew'|]. constructor; [|constructor].
+      exists e. split; [left; reflexivity|reflexivity].
+Qed.
+
+(* walking back over commit frames that do not verify *)
+Lemma find_good_skip f new old :
+  Forall (fun c => commit_good f c = false) new -> find_good f (new ++ old) = find_good f old.
+Proof.
+  induction 1 as [|c r Hc _ IH]; [reflexivity|]. cbn [app find_good]. rewrite Hc. exact IH.
 Qed.
 
 (* ---------------- the accumulator after a chain of committed batches ---------------- *)
 Definition acc_inv (info : seginfo) (s : cst) (a : rec_acc) : Prop :=
   ra_offsets a = c_offs s /\ ra_pending a = 0 /\
-  match ra_final a with
-  | None => s = c0
-  | Some fc =>
+  match ra_commits a with
+  | [] => s = c0
+  | fc :: _ =>
       c_img s <> [] /\ c_off fc + 8 = len (c_img s) /\
       c_offsets_len fc = length (c_offs s) /\ c_index_start fc = c_istart s /\
       forall r, crc32c (read_at (c_img s ++ r) (c_crc_start fc) (c_off fc - c_crc_start fc)) = c_crc fc
@@ -190,18 +220,18 @@ Qed.
 Lemma acc_step info s b a :
   acc_inv info s a -> bwf info s b ->
   let a' := fold_left rec_step (fs_events (c_pos info s) (batch_shapes info s b)) a in
-  acc_inv info (cstep info s b) a' /\ ra_prev a' = ra_final a.
+  acc_inv info (cstep info s b) a' /\ (exists fc, ra_commits a' = fc :: ra_commits a).
 Proof.
   intros (Ho & Hp & Hf) [Hw Hlen]. cbn zeta. unfold batch_shapes. rewrite fold_batch_events. cbn zeta.
-  split; [|reflexivity].
-  unfold acc_inv. cbn [ra_offsets ra_pending ra_final c_off c_offsets_len c_index_start c_crc_start c_crc].
+  split; [|eexists; reflexivity].
+  unfold acc_inv. cbn [ra_offsets ra_pending ra_commits c_off c_offsets_len c_index_start c_crc_start c_crc].
   rewrite (c_offs'_small info s b Hlen), Ho. cbn [cstep c_offs c_istart]. fold (c_offs' info s b).
   split; [reflexivity|]. split; [reflexivity|].
   split; [apply c_img_cstep_nonnil|]. split; [rewrite len_img_cstep; reflexivity|].
   split; [reflexivity|]. split; [rewrite Hp; reflexivity|].
   intros r.
-  assert (Es : match ra_final a with Some p => c_off p + 8 | None => 0 end = len (c_img s)).
-  { destruct (ra_final a) as [fc|]; [destruct Hf as (_ & H & _); exact H|]. subst s. reflexivity. }
+  assert (Es : match ra_commits a with p :: _ => c_off p + 8 | [] => 0 end = len (c_img s)).
+  { destruct (ra_commits a) as [|fc ?]; [subst s; reflexivity|]. destruct Hf as (_ & H & _); exact H. }
   rewrite Es. cbn [c_img cstep]. unfold batch_write. rewrite <- !app_assoc.
   rewrite read_at_app. unfold c_pos.
   replace (len (c_img s) + len (c_pend info s) + len (batch_body info s b) - len (c_img s))
@@ -290,6 +320,34 @@ Proof.
   f_equal.
 Qed.
 
+(* behind the chain the scan found only commit frames that do not verify (new):
+   recovery walks back over them to the last commit frame of the chain, which
+   verifies whatever follows the chain, and the chain survives as is *)
+Lemma recover_stale info s r a evs2 new (f := c_img s ++ r) :
+  hdr_wf info -> hdr_inv info s -> len (c_img s) < two32 ->
+  acc_inv info s a ->
+  rec_fold (scan f) = fold_left rec_step evs2 a ->
+  ra_commits (fold_left rec_step evs2 a) = new ++ ra_commits a ->
+  Forall (fun c => commit_good f c = false) new ->
+  recover_state info f = Some (wst info s).
+Proof.
+  intros Hhw [hr Hh] Hl (Ho & Hp & Hf) Hfold Hc Hbad. assert (Ef : f = c_img s ++ r) by reflexivity. clearbody f.
+  destruct (fold_any evs2 a) as (_ & extra & O). cbn zeta in O.
+  unfold recover_state. rewrite Hfold, Hc, (find_good_skip f new _ Hbad).
+  destruct (ra_commits a) as [|fc rest] eqn:Efc.
+  - cbn [find_good]. rewrite Hf, wst_c0. reflexivity.
+  - destruct Hf as (Hn & Hoff & Hol & His & Hcrc).
+    assert (Hg : commit_good f fc = true) by (unfold commit_good; rewrite Ef, Hcrc; apply N.eqb_refl).
+    cbn [find_good]. rewrite Hg.
+    assert (Hpend : c_pend info s = []) by (unfold c_pend; destruct (c_img s); congruence).
+    rewrite Hpend, app_nil_r in Hh.
+    assert (Hhdr : validate_file_header (scanned_header f) info = true).
+    { rewrite Ef, Hh, <- app_assoc. apply scanned_header_hdr. exact Hhw. }
+    rewrite Hhdr, O, Ho, Hol, firstn_app_exact.
+    replace (c_off fc + 8) with (len (c_img s)) by lia. rewrite His.
+    rewrite recovered_wst by assumption. reflexivity.
+Qed.
+
 (* the tail behind the chain produced no commit frame: the chain survives as is *)
 Lemma recover_no_commit info s r a evs2 (f := c_img s ++ r) :
   hdr_wf info -> hdr_inv info s -> len (c_img s) < two32 ->
@@ -298,25 +356,9 @@ Lemma recover_no_commit info s r a evs2 (f := c_img s ++ r) :
   rec_fold (scan f) = fold_left rec_step evs2 a ->
   recover_state info f = Some (wst info s).
 Proof.
-  intros Hhw [hr Hh] Hl (Ho & Hp & Hf) Hev Hfold. assert (Ef : f = c_img s ++ r) by reflexivity. clearbody f.
-  destruct (fold_no_commit evs2 a Hev) as (F & P & extra & O). cbn zeta in F, P, O.
-  unfold recover_state. rewrite Hfold, F.
-  destruct (ra_final a) as [fc|] eqn:Efc.
-  - destruct Hf as (Hn & Hoff & Hol & His & Hcrc).
-    assert (Hpend : c_pend info s = []) by (unfold c_pend; destruct (c_img s); congruence).
-    rewrite Hpend, app_nil_r in Hh.
-    assert (Hhdr : validate_file_header (scanned_header f) info = true).
-    { rewrite Ef, Hh, <- app_assoc. apply scanned_header_hdr. exact Hhw. }
-    rewrite Hhdr, O, Ho, Hol.
-    assert (Hfirst : firstn (length (c_offs s)) (c_offs s ++ extra) = c_offs s) by apply firstn_app_exact.
-    replace (c_off fc + 8) with (len (c_img s)) by lia. rewrite His.
-    destruct (Nat.ltb (length (c_offs s)) (length (c_offs s ++ extra))) eqn:El.
-    + rewrite Hfirst. rewrite recovered_wst by assumption. reflexivity.
-    + apply Nat.ltb_ge in El. rewrite app_length in El.
-      assert (extra = []) by (destruct extra; [reflexivity|cbn in El; lia]). subst extra.
-      rewrite app_nil_r. rewrite Ef, Hcrc, N.eqb_refl.
-      rewrite recovered_wst by assumption. reflexivity.
-  - rewrite Hf, wst_c0. reflexivity.
+  intros Hhw Hh Hl Hacc Hev Hfold.
+  destruct (fold_no_commit evs2 a Hev) as (F & _). cbn zeta in F.
+  apply (recover_stale info s r a evs2 []); try assumption. constructor.
 Qed.
 
 (* ---------------- torn images ---------------- *)
@@ -391,6 +433,18 @@ Proof.
     rewrite zeros_app. apply torn_zero; [rewrite firstn_length; lia|].
     apply IH. rewrite skipn_length. lia.
 Qed.
+
+(* a torn write of [new] over the old content [old] of the same range: per
+   8-byte chunk the new or the old bytes *)
+Inductive torn_over : bytes -> bytes -> bytes -> Prop :=
+| tov_nil : torn_over [] [] []
+| tov_new co cn old new T : length co = 8%nat -> length cn = 8%nat -> torn_over old new T ->
+                            torn_over (co ++ old) (cn ++ new) (cn ++ T)
+| tov_old co cn old new T : length co = 8%nat -> length cn = 8%nat -> torn_over old new T ->
+                            torn_over (co ++ old) (cn ++ new) (co ++ T).
+
+(* the n bytes at off (zeros beyond the end: a write there extends the file) *)
+Definition region (s : bytes) (off n : nat) : bytes := firstn n (skipn off s ++ zeros n).
 
 (* frames under tearing: headers are single chunks, so each is intact or zero *)
 Definition hdr_eq (x y : fshape) : Prop :=
@@ -538,12 +592,12 @@ Proof.
   rewrite fold_batch_events in Efold. cbn zeta in Efold.
   destruct Hacc as (Ho & Hp & Hf).
   rewrite (c_offs'_small info s b Hblen), Ho, Hp in Efold. fold (c_offs' info s b) in Efold.
-  assert (Es : match ra_final a with Some p => c_off p + 8 | None => 0 end = len (c_img s)).
-  { destruct (ra_final a) as [fc|]; [destruct Hf as (_ & H & _); exact H|]. rewrite Hf. reflexivity. }
+  assert (Es : match ra_commits a with p :: _ => c_off p + 8 | [] => 0 end = len (c_img s)).
+  { destruct (ra_commits a) as [|fc ?]; [rewrite Hf; reflexivity|]. destruct Hf as (_ & H & _); exact H. }
   rewrite Es in Efold.
   unfold recover_state. fold (hdr_okb info f). rewrite Efold.
-  cbn [ra_final ra_offsets ra_prev c_offsets_len c_off c_crc_start c_crc c_index_start].
-  rewrite Nat.ltb_irrefl.
+  cbn [ra_commits ra_offsets find_good]. unfold commit_good at 1.
+  cbn [c_offsets_len c_off c_crc_start c_crc c_index_start].
   assert (Lb : len (batch_body info s b) = len (frames_bytes lb')).
   { rewrite <- frames_bytes_body. apply len_frames_hdr_eq. exact Hlb. }
   assert (Eread : read_at f (len (c_img s)) (c_pos info s + len (batch_body info s b) - len (c_img s))
@@ -554,11 +608,15 @@ Proof.
     rewrite to_nat_len. rewrite app_assoc. apply firstn_app_exact. }
   rewrite Eread. fold crc.
   destruct (crc32c (Tp ++ frames_bytes lb') =? crc) eqn:Ecrc.
-  - destruct (hdr_okb info f); [|reflexivity]. f_equal.
+  - cbn [c_offsets_len c_off c_index_start].
+    destruct (hdr_okb info f); [|reflexivity]. f_equal. rewrite firstn_all.
     rewrite <- (recovered_wst info (cstep info s b)); [|apply c_img_cstep_nonnil|exact Hblen].
     rewrite Limg. cbn [cstep c_istart c_offs]. reflexivity.
-  - destruct (ra_final a) as [fc|] eqn:Efc.
+  - destruct (ra_commits a) as [|fc rest] eqn:Efc.
+    + cbn [find_good]. rewrite Hf, wst_c0. reflexivity.
     + destruct Hf as (Hn & Hoff & Hol & His & Hcrc).
+      assert (Hg : commit_good f fc = true) by (unfold commit_good, f; rewrite Hcrc; apply N.eqb_refl).
+      cbn [find_good]. rewrite Hg.
       assert (Hpend : c_pend info s = []) by (unfold c_pend; destruct (c_img s); congruence).
       destruct Hh as [hr Hh]. rewrite Hpend, app_nil_r in Hh.
       assert (Hhdr : hdr_okb info f = true).
@@ -566,7 +624,6 @@ Proof.
       rewrite Hhdr. f_equal. rewrite Hol. unfold c_offs'. rewrite firstn_app_exact.
       replace (c_off fc + 8) with (len (c_img s)) by lia. rewrite His.
       apply recovered_wst; assumption.
-    + rewrite Hf, wst_c0. reflexivity.
 Qed.
 
 (* torn-write collisions: an incomplete image whose commit chunk is on disk and
